@@ -125,6 +125,10 @@ MkC13(d) ==
       [] d.k = "create" -> P("Create", CreateP(d.n))
       [] d.k = "register" -> P("Register", PRegister(d.s, AllBits, RegExtra(d.n)))
       \* a creation template carrying one more attribute, for every name of the menu
+      \* every symmetric algorithm the server knows (and some it does not) x key lengths, effective lengths included
+      [] d.k = "createalg" -> P("Create", [otype |-> "SymmetricKey",
+                                           attrs |-> <<A("Cryptographic Algorithm", d.n), A("Cryptographic Length", d.i),
+                                                       A("Cryptographic Usage Mask", <<"ENCRYPT">>)>>])
       [] d.k = "createattr" -> P("Create", PCreate(<<"ENCRYPT">>, <<A(d.n, ValOf(d.n))>>))
       [] d.k = "registerattr" -> P("Register", PRegister(d.s, AllBits, <<A(d.n, ValOf(d.n))>>))
       [] d.k = "regshape" -> P("Register", RegShape(d.s, d.n))
@@ -174,6 +178,9 @@ Grid(s) ==
     \cup {D("register", "alice", 12, 0, n, 0, t, FALSE) : t \in Types7 \cup {"Template"}, n \in {"", "alg", "len", "sens", "state", "ctype"}}
     \cup {D("regshape", "alice", 12, 0, n, 0, t, FALSE) : t \in Types7, n \in {"noalg", "nolen", "empty", "pgp"}}
     \cup {D("regshape", "alice", 12, 0, n, 0, "SplitKey", FALSE) : n \in {"prime", "bigprime"}}
+    \cup {D("createalg", "alice", 12, 0, alg, len, "", FALSE) :
+              alg \in {"AES", "TRIPLE_DES", "BLOWFISH", "CAMELLIA", "CAST5", "IDEA", "RC4", "DES", "RSA", "HMAC_SHA256", "TWOFISH"},
+              len \in {0, 40, 56, 64, 112, 128, 168, 192, 256, 448, 100}}
     \cup UNION {{D("createattr", "alice", v, 0, n, 0, "", FALSE) : n \in (IF v < 20 THEN AttrNames ELSE Names20)} : v \in Vers}
     \cup UNION {{D("registerattr", "alice", v, 0, n, 0, t, FALSE) : t \in {"SymmetricKey", "Certificate", "OpaqueData", "SplitKey"},
                                                                   n \in (IF v < 20 THEN AttrNames ELSE Names20)} : v \in Vers}
